@@ -11,39 +11,3 @@ import PycommProps.C18
 #print axioms Pycomm.C18.mask_word_bit
 #print axioms Pycomm.C18.write_then_read
 #print axioms Pycomm.C18.write_frame
-#print axioms Pycomm.C18.parse_status
-#print axioms Pycomm.C18.parse_status_word
-#print axioms Pycomm.C18.parse_status_bit
-#print axioms Pycomm.C18.parse_status_count
-#print axioms Pycomm.C18.reject_status_out_of_range
-#print axioms Pycomm.C18.reject_status_file_number
-#print axioms Pycomm.C18.parse_io
-#print axioms Pycomm.C18.parse_io_word
-#print axioms Pycomm.C18.parse_io_subelement
-#print axioms Pycomm.C18.parse_io_bit
-#print axioms Pycomm.C18.parse_io_count
-#print axioms Pycomm.C18.reject_io_out_of_range
-#print axioms Pycomm.C18.ct_table_eq
-#print axioms Pycomm.C18.parse_ct_sub
-#print axioms Pycomm.C18.reject_ct_out_of_range
-#print axioms Pycomm.C18.reject_ct_long_element
-#print axioms Pycomm.C18.reject_ct_unknown_sub
-#print axioms Pycomm.C18.reject_ct_no_sub
-#print axioms Pycomm.C18.parse_accepts_in_range
-#print axioms Pycomm.C18.type_codes
-#print axioms Pycomm.C18.address_fields_spec
-#print axioms Pycomm.C18.address_fields_of_parse
-#print axioms Pycomm.C18.address_fields_reject
-#print axioms Pycomm.C18.write_address_fields_spec
-#print axioms Pycomm.C18.write_address_fields_eq_read
-#print axioms Pycomm.C18.read_request_location
-#print axioms Pycomm.C18.read_word_e2e
-#print axioms Pycomm.C18.read_count_e2e
-#print axioms Pycomm.C18.read_bit_e2e
-#print axioms Pycomm.C18.read_ct_e2e
-#print axioms Pycomm.C18.read_float_e2e
-#print axioms Pycomm.C18.read_long_e2e
-#print axioms Pycomm.C18.write_read_bit_e2e
-#print axioms Pycomm.C18.write_read_word_e2e
-#print axioms Pycomm.C18.write_read_ct_e2e
-#print axioms Pycomm.C18.write_read_ct_bit_e2e
